@@ -249,6 +249,25 @@ class DynamicConstantProvider(DelegatingConstantProvider):
                 return
             self._pool.add_constant(value)
 
+    def add_value_for_affix(self, value: str, affix: str, prefix: bool) -> None:
+        """Entry point for the instrumented code. Add a string extended by an affix.
+
+        For ``value.startswith(affix)`` / ``value.endswith(affix)`` the string that would
+        satisfy the check is added.  The instrumented code only hands over the two
+        operands: building the string here keeps a non-string affix (e.g. a tuple of
+        prefixes) from raising inside the module under test.
+
+        Args:
+            value: The string the method is called on
+            affix: The argument of the method
+            prefix: Whether the affix is put in front of the string
+        """
+        # Might be proxies.
+        value = unwrap(value)
+        affix = unwrap(affix)
+        if isinstance(value, str) and isinstance(affix, str):
+            self.add_value(affix + value if prefix else value + affix)
+
     def add_value_for_strings(self, value: str, name: str):
         """Entry point for the instrumented code. Add a value of a string.
 
